@@ -9,6 +9,10 @@ verus! {
 pub assume_specification<'a, T: Copy> [std::option::Option::<&'a T>::copied] (o: Option<&'a T>) -> (r: Option<T>)
     ensures r == (match o { Some(x) => Some(*x), None => None });
 
+// TRUSTED[option-or]: Option::or returns self if it is Some, otherwise the argument (std doc).
+pub assume_specification<T> [std::option::Option::<T>::or] (a: Option<T>, b: Option<T>) -> (r: Option<T>)
+    ensures r == (if a is Some { a } else { b });
+
 /// the borrow `Deref::deref` yields (uninterpreted in general; fixed for String below)
 pub uninterp spec fn deref_target<T: std::ops::Deref>(t: &T) -> &<T as std::ops::Deref>::Target;
 
